@@ -76,7 +76,7 @@ def check_default(sel, st):
     rep = report.TextReport(res.stdout)
     lv = rep.levels()
     exp = fold(lv)
-    st.execution(res.world, outcome=(res.status, exp), root=('sev', sel), nontrivial=('sev', sel))
+    st.execution(res.world, outcome=(res.status, exp), root=('sev', sel), nontrivial=('sev', sel), detail='light')
     if res.status != exp:
         st.violation('status-%s-but-report-folds-to-%s' % (res.status, exp),
                      {'sel': [list(x) for x in sel], 'status': res.status, 'levels': sorted(lv), 'stdout_tail': res.stdout[-300:]})
